@@ -1404,7 +1404,11 @@ class Scheduler:
             def callback(result):
                 # Copy the evaluation bookkeeping from the completed expression `expr2`
                 # to our detected duplicate expression `expr`.
-                if isinstance(expr2, TaskExpression):
+                if isinstance(expr2, SchedulerExpression):
+                    # The duplicate's own sub-expressions are never evaluated, so the dataflow
+                    # has to be followed through the evaluated expression.
+                    expr._upstreams = expr2._upstreams
+                elif isinstance(expr2, TaskExpression):
                     expr.call_hash = expr2.call_hash  # ty: ignore[unresolved-attribute]
                 elif isinstance(expr2, SimpleExpression):
                     expr._upstreams = expr2._upstreams
